@@ -6,6 +6,11 @@
      alternative is unreachable because an earlier alternative that cannot fail accepts its first
      byte — in particular the escape alternatives of the quoted-string readers, which must be
      reachable for the writer's `\\"` / `\\<hex>` forms to read back.
+ (c) delimiter-terminated readers (`terminated(many0(alt(parts)), tag(END))`: comments, quoted
+     strings): a part that can start with END's first byte consumes exactly that one byte under
+     the look-ahead `peek(not(tag(<rest of END>)))`; a greedy run over that byte (is_a, many1,
+     take_while) or an unguarded tag would swallow the byte that belongs to the terminator, and the
+     reader then rejects text the writer emits (`/* x **/`).
 Round-trip equality over all stylesheets is a runtime relation and is not claimed.
 """
 from lib import ast as A, grammar
@@ -86,9 +91,79 @@ def run(ctx, F):
                     ctx.fail("F7-alt-shadowing", f"{key0}|alternative {i}: {A.show(a)[:50]}",
                              f"in {f['path']} alternative {i} (`{A.show(a)[:60]}`, starting with {firsts!r}) can never be chosen: an earlier alternative accepts that byte and cannot fail on it; input using this form is misread")
     ctx.floor("alt combinators examined", n_alt, 90)
+    terminated_readers(ctx, tree)
     first_position_rule(ctx, tree)
     ctx.explanation = ("Sibling tables: literal written per Unit variant (Display) vs the unit parser's literal->variant table; FIRST byte sets of nom combinators (tag, char, one_of, is_a, is_not, value, map*, opt, many*, "
                        "preceded/pair/terminated/delimited, alt, local parser functions) and shadowing of alternatives in all alt(..) of the parser modules.")
+
+
+REPEATERS = ("many0", "fold_many0", "many1", "fold_many1", "many0_count", "many1_count")
+WRAPPERS = ("map", "map_res", "recognize", "opt", "verify", "map_opt", "value", "into", "cut", "context")
+
+
+def _cname(n):
+    n = A.strip(n)
+    return n["f"]["p"].rsplit("::", 1)[-1] if isinstance(n, dict) and n.get("e") == "call" and n["f"].get("e") == "path" else None
+
+
+def _unwrap(n):
+    n = A.strip(n)
+    while _cname(n) in WRAPPERS and n["args"]:
+        n = A.strip(n["args"][1] if _cname(n) in ("value", "context") and len(n["args"]) > 1 else n["args"][0])
+    return n
+
+
+def terminated_readers(ctx, tree):
+    G = grammar.Grammar(tree)
+    n_readers = 0
+    for f in tree.fn_list:
+        if not f["path"].startswith("parser::"):
+            continue
+        mod = f["path"].rsplit("::", 1)[0]
+        for n in A.walk(f["body"]):
+            nm = _cname(n) if n.get("e") == "call" else None
+            if nm not in ("terminated", "delimited") or len(n["args"]) < 2:
+                continue
+            term = A.strip(n["args"][-1])
+            if _cname(term) not in ("tag", "char") or not term.get("args"):
+                continue
+            T = grammar.lit_bytes(term["args"][0])
+            if not T:
+                continue
+            body = _unwrap(n["args"][-2] if nm == "delimited" else n["args"][0])
+            if _cname(body) not in REPEATERS or not body["args"]:
+                continue
+            inner = A.strip(body["args"][0])
+            tup = A.strip(inner["args"][0]) if _cname(inner) == "alt" and inner["args"] else None
+            parts = tup["xs"] if tup is not None and tup.get("e") == "tuple" else [inner]
+            n_readers += 1
+            rest = T[1:]
+            for p in parts:
+                fs = G.first(p, mod)
+                if not fs.known or T[0] not in fs.first:
+                    continue
+                key = f"{f['path']}|END={T.decode('latin-1')!r}|{A.show(p)[:50]}"
+                core = _unwrap(p)
+                ok = False
+                if _cname(core) == "terminated" and len(core["args"]) == 2:
+                    head, guard = _unwrap(core["args"][0]), A.strip(core["args"][1])
+                    head_ok = _cname(head) in ("tag", "char") and grammar.lit_bytes(head["args"][0]) == T[:1]
+                    g = guard
+                    guard_ok = False
+                    if _cname(g) == "peek" and g["args"]:
+                        g2 = A.strip(g["args"][0])
+                        if _cname(g2) == "not" and g2["args"]:
+                            g3 = A.strip(g2["args"][0])
+                            if _cname(g3) in ("tag", "char") and g3.get("args") and rest and grammar.lit_bytes(g3["args"][0]) == rest[:len(grammar.lit_bytes(g3["args"][0]) or b"")]:
+                                guard_ok = True
+                    ok = head_ok and guard_ok
+                if ok:
+                    ctx.ok("F7-terminator-safe", key, f"one {T[:1].decode('latin-1')!r} under peek(not({rest.decode('latin-1')!r}))")
+                else:
+                    ctx.fail("F7-terminator-safe", key, f"{f['path']}: inside the repetition that ends at {T.decode('latin-1')!r}, the part `{A.show(p)[:80]}` can consume {T[:1].decode('latin-1')!r} "
+                             f"other than as a single byte guarded by peek(not(tag({rest.decode('latin-1')!r}))): it can swallow the byte that belongs to the terminator, so text ending in "
+                             f"`{(T[:1] + T).decode('latin-1')}` is rejected")
+    ctx.floor("delimiter-terminated readers", n_readers, 6)
 
 
 def alt_members(tree, node, module, depth=0):
